@@ -10,10 +10,10 @@ import (
 // parsed to the field's type; unparsable examples fall back to the default.
 // The example table of the emitted mock is overwritten with arbitrary strings.
 func VerifC20Examples() {
-	e1 := verif.StringIn("big.example1", 11, "0-9-x")
-	e2 := verif.StringIn("big.example2", 3, "0-9-x")
+	e1 := verif.StringIn("big.example1", verif.L(11), "0-9-x")
+	e2 := verif.StringIn("big.example2", verif.L(3), "0-9-x")
 	fieldExamples["Resp.big"] = []string{e1, e2}
-	t1, t2 := verif.String("title.example1", 3), verif.String("title.example2", 3)
+	t1, t2 := verif.String("title.example1", verif.L(3)), verif.String("title.example2", verif.L(3))
 	fieldExamples["Resp.title"] = []string{t1, t2}
 	b1 := []string{"true", "false", "yes"}[verif.Choice("ok.example", 3)]
 	fieldExamples["Resp.ok"] = []string{b1}
